@@ -921,6 +921,9 @@ fn oom<F: CKind>(args: &Args) {
             s.export_dddmp(&[None, sy], true, true);
             s.dot(&[sx, None], false);
             s.dot(&[None], true);
+            // an invalid function between valid ones: it is skipped with its name
+            s.dot(&[sx, None, sy], false);
+            s.dot(&[None, sy, sx, None, sy], true);
             // free space: valid results again
             let live = s.live();
             for &z in live.iter().skip(2) {
